@@ -424,6 +424,13 @@ GENERIC_ALIAS = {
 }
 
 
+# a renamed import whose real name is used for a LOCAL variable inside a copied function literal (repaired: the import
+# keeps the name the file gives it)
+ALIAS_CAPTURE = {
+    "k.go": 'package main\n\nimport (\n\tstr "strings"\n\n\t"github.com/mazrean/kessoku"\n)\n\ntype Name string\n\nvar _ = kessoku.Inject[Name]("InitName", kessoku.Provide(func() Name {\n\tstrings := []string{"a", "b"}\n\treturn Name(str.Join(strings, "-"))\n}))\n\nfunc main() {\n\tif InitName() != "a-b" {\n\t\tpanic("wrong result")\n\t}\n}\n',
+}
+
+
 def write_pkg(mod, name, files):
     d = os.path.join(mod, name)
     os.makedirs(d, exist_ok=True)
@@ -493,6 +500,7 @@ def _stage(seed, tier, key="N-x"):
     pkgs.append(("alias_dup", ALIAS_DUP, ["k.go"], None, dict(kind="two suppliers of one type, one spelled through an alias", expect_refused="multiple providers")))
     pkgs.append(("unicode_types", UNICODE_TYPES, ["k.go"], None, dict(kind="naming: type names starting with a non-ASCII upper-case letter", run=True)))
     pkgs.append(("generic_alias", GENERIC_ALIAS, ["k.go"], None, dict(kind="types: instances of generic aliases, a qualified constant in the requested type", run=True)))
+    pkgs.append(("alias_capture", ALIAS_CAPTURE, ["k.go"], None, dict(kind="naming: a renamed import and a local of a copied literal", run=True)))
     pkgs.append(("xset", XSET, ["k.go"], "KF-C10-1", dict(kind="known finding reproducer (Set of another package)", signature="no vet signature: the file compiles",
                                                        expect_params={"k_band.go": {"InitB": []}}, known_params={"k_band.go": {"InitB": ["*prov.A"]}})))
     for kid, (body, sig) in KNOWN.items():
